@@ -99,3 +99,16 @@ VARIANTS += [
          old="            trial_id = self._replay_result._last_created_trial_id_by_this_process\n",
          new="            trial_id = self._replay_result._study_id_to_trial_ids[study_id][-1]\n"),
 ]
+
+VARIANTS += [
+    # round 4: reverts of F17 and structural twins of the new clauses
+    dict(id="c03-cached-create-fetch-outside-lock", prop="C03", file=CS, expect="R03.10",
+         old="            frozen_trial = self._backend._create_new_trial(study_id, template_trial)\n            trial_id = frozen_trial._trial_id\n            if study_id not in self._studies:\n                self._studies[study_id] = _StudyInfo()\n            study = self._studies[study_id]\n            self._add_trials_to_cache(study_id, [frozen_trial])\n",
+         new="            frozen_trial = self._backend._create_new_trial(study_id, template_trial)\n            trial_id = frozen_trial._trial_id\n        with self._lock:\n            if study_id not in self._studies:\n                self._studies[study_id] = _StudyInfo()\n            study = self._studies[study_id]\n            self._add_trials_to_cache(study_id, [frozen_trial])\n"),
+    dict(id="c03-rdb-flush-commit-mid-call", prop="C03", file=RDB, expect="R03.4",
+         old="            trial_param.check_and_add(session, trial.study_id)\n",
+         new="            trial_param.check_and_add(session, trial.study_id)\n            session.commit()\n"),
+    dict(id="c03-rdb-state-test-on-plain-read", prop="C03", file=RDB, expect="R03.4",
+         old="                trial = models.TrialModel.find_or_raise_by_id(trial_id, session, for_update=True)\n                self.check_trial_is_updatable(trial_id, trial.state)\n\n                if state == TrialState.RUNNING and trial.state != TrialState.WAITING:",
+         new="                trial = models.TrialModel.find_or_raise_by_id(trial_id, session, for_update=True)\n                self.check_trial_is_updatable(trial_id, trial.state)\n\n                if state == TrialState.RUNNING and models.TrialModel.find_or_raise_by_id(trial_id, session).state != TrialState.WAITING:"),
+]
